@@ -157,6 +157,25 @@ def corpus():
           mk(["chain", [["trend", 1], ["moment"], ["knn", 1, "mean"]]], [es, ns], [[float(int(3 * v)) for v in d2]], None, q, "corpus-chain-intdata"),
           mk(["vector", [["chain", [["trend", 1], ["moment"]]], ["trend", 0]]], [es, ns], [d1, [float(int(3 * v)) for v in d2]], None, q,
              "corpus-vector-intdata")]
+    # families exercised on EVERY run (each was once needed to expose a seeded change)
+    nan = float("nan")
+    q = [[0.125, 1.1875, 5.0], [0.0625, 0.3125, 4.5]]      # (no query point equidistant from two data points)
+    eg = [0.5, 1.625, 2.75, 3.5, 0.25, 3.875, 0.8125, 2.3125]      # a cloud in general position (no distance ties for k <= 3)
+    ng = [0.5, 0.4375, 1.5625, 1.375, 0.1875, 1.75, 0.84375, 1.25]
+    er, nr = es + es[:2], ns + ns[:2]                      # repeated locations with other values
+    dr = d1 + [d1[0] + 3.5, d1[1] - 2.0]
+    wavg = ["block_reduce", [0.0, 4.0, 0.0, 2.0], None, [1.0, 2.0], "spacing", "average", False, True]
+    cs += [mk(["chain", [["knn", 1, "mean"], ["trend", 1]]], [er, nr], [dr], None, q, "corpus-repeated-points-knn-first"),
+           mk(["chain", [["knn", 2, "mean"], ["moment"]]], [eg, ng], [d1], [w1], q, "corpus-weights-past-knn"),
+           mk(["chain", [["knn", 3, "median"], ["trend", 1]]], [eg, ng], [d1], [w1], q, "corpus-weights-past-knn"),
+           mk(["chain", [blk, ["knn", 1, "mean"], ["moment"]]], [es, ns], [d1], [w1], q, "corpus-weights-blockmean-knn-moment"),
+           mk(["chain", [wavg, ["moment"], ["trend", 0]]], [es, ns], [d1], [w1], q, "corpus-weights-past-blockreduce"),
+           mk(["chain", [["knn", 2, "mean"], ["knn", 1, "max"], ["knn", 3, "median"]]], [es, ns], [[1.0, nan, 3.0, 4.0, 5.0, nan, 8.0, -3.0]], None,
+              [q[0] + es, q[1] + ns], "corpus-nan-data"),
+           mk(["chain", [["trend", 1], ["spline", 1e-2, 0.5], ["knn", 2, "mean"]]], [es, ns], [d1], None, q, "corpus-spline-steps"),
+           mk(["chain", [["spline", 1e-3, 0.0], ["trend", 1]]], [es, ns], [d1], [w1], q, "corpus-spline-steps"),
+           mk(["chain", [["trend", 0], ["knn", 2, "mean"], ["moment"], ["knn", 1, "mean"]]], [es, ns], [d1], None, q, "corpus-four-predicting-steps"),
+           mk(["chain", [["trend", 1], ["trend", 1]]], [es, ns], [d1], None, q, "corpus-same-step-twice")]
     return cs
 
 
@@ -361,6 +380,11 @@ def oracle(case, io):
                     dat = np.array(_tolist(args[1]))
                     if not _close(np.array(_tolist(out[1])) + p, np.where(np.isnan(p), np.nan, dat), 1e-9, max(1.0, nmax(p), nmax(dat))):
                         return f"step {k} ({s_[0]}): its filter does not return data minus its own prediction"
+                    win, wout = (args[2] if len(args) > 2 else None), (out[2] if len(out) > 2 else None)
+                    if (win is None) != (wout is None) or (win is not None and not _close(_tolist(wout), _tolist(win))):
+                        return f"step {k} ({s_[0]}): its filter does not return the weights it was given"
+                    if not _close(_tolist(tuple(out[0])), _tolist(tuple(args[0]))):
+                        return f"step {k} ({s_[0]}): its filter does not return the coordinates it was given"
                 args = out
         if tie:
             return None
